@@ -9,6 +9,28 @@ impl TypeInference {
         let mut subst = Substitution::new();
 
         for constraint in self.constraints.clone() {
+            // An arithmetic result is solved as `result = T` where T is the operands' type as
+            // known at this point; int OP float (in either order) is a float at run time.
+            let constraint = match constraint {
+                Constraint::ArithResult {
+                    left,
+                    right,
+                    result,
+                    span,
+                    reason,
+                } => {
+                    let left_resolved = subst.apply(&left);
+                    let right_resolved = subst.apply(&right);
+                    let operand_ty = if left_resolved.is_integer() && right_resolved.is_float() {
+                        right_resolved
+                    } else {
+                        left_resolved
+                    };
+                    Constraint::equal(operand_ty, result, span, reason)
+                }
+                other => other,
+            };
+
             if let Constraint::Equal {
                 left,
                 right,
